@@ -28,7 +28,7 @@ Definition bind {A B} (r : res A) (f : A -> res B) : res B :=
   match r with Ok a => f a | Err e => Err e end.
 Notation "'do' x <- r ; k" := (bind r (fun x => k)) (at level 200, x name, r at level 100, k at level 200).
 
-Definition cell := option Z.
+Notation cell := (option Z) (only parsing).
 Record block := mkblock { cells : list cell; blen : nat; bcap : nat; bref : nat }.
 Inductive handle := HEmpty | HView (r off len : nat) | HBlock (b : nat).
 Record world := mkworld { vars : list handle; heap : list block; regs : list (list Z) }.
@@ -116,23 +116,27 @@ Definition alloc_str (w : world) (src : list cell) (n cap : nat) : res (world * 
   Ok (mkworld (vars w) (heap w ++ [mkblock c2 n cap 1]) (regs w), HBlock (length (heap w))).
 
 (* ---- String::detach(copyLength, minCapacity) ---- *)
+(* the reallocating branch: new block, copy min(len, copyLength) cells when len > 0, terminator,
+   release of the old data, data = newData *)
+Definition detach_realloc (w : world) (v : nat) (h : handle) (c m : nat) : res world :=
+  let cap := or3 m in
+  do len <- d_len w h;
+  do c1 <- (if 0 <? len
+            then do src <- d_read w h 0 (Nat.min len c);
+                 do x <- cwrite (repeat None (S cap)) 0 src;
+                 cwrite x c [Some 0%Z]
+            else cwrite (repeat None (S cap)) 0 [Some 0%Z]);
+  do w1 <- release w h;
+  Ok (set_var (mkworld (vars w1) (heap w1 ++ [mkblock c1 c cap 1]) (regs w1)) v (HBlock (length (heap w1)))).
+
 Definition detach (w : world) (v : nat) (c m : nat) : res world :=
   do h <- get_var w v;
   do r <- d_ref w h;
   do inplace <- (if r =? 1
                  then match h with HBlock b => do k <- get_blk w b; Ok (m <=? bcap k) | _ => Ok false end
                  else Ok false);
-  if (inplace : bool) then v_setlen_term w v c
-  else
-    let cap := or3 m in
-    do len <- d_len w h;
-    do c1 <- (if 0 <? len
-              then do src <- d_read w h 0 (Nat.min len c);
-                   do x <- cwrite (repeat None (S cap)) 0 src;
-                   cwrite x c [Some 0%Z]
-              else cwrite (repeat None (S cap)) 0 [Some 0%Z]);
-    do w1 <- release w h;
-    Ok (set_var (mkworld (vars w1) (heap w1 ++ [mkblock c1 c cap 1]) (regs w1)) v (HBlock (length (heap w1)))).
+  if (inplace : bool) then v_setlen_term w v c          (* ((char* )data->str)[data->len = copyLength] = 0 *)
+  else detach_realloc w v h c m.
 
 (* operator const char*(): detaches when the byte at length() is not a terminator (an
    indeterminate byte there is taken as non-zero; both answers end in a terminated view) *)
@@ -283,7 +287,8 @@ Definition install (w : world) (v : nat) (bs : list Z) (cap : nat) : res world :
   pop_var w2.
 
 (* ---- pure mirrors of the loops of String.cpp on byte lists ---- *)
-Definition tbl (t : list Z) (c : Z) : Z := nth (Z.to_nat c) t c.
+(* lowerCaseMap[(uchar)c]: the index is a byte by construction of the C++ expression *)
+Definition tbl (t : list Z) (c : Z) : Z := if ((0 <=? c) && (c <? 256))%Z then nth (Z.to_nat c) t c else c.
 
 (* strstr / strpbrk / strchr of libc on a NUL-free text: reference functions *)
 Definition m_strstr (hay needle : list Z) : option nat := find_first (P_sub needle) hay.
